@@ -10,8 +10,8 @@ use serde::{Deserialize, Serialize};
 use std::cell::{Cell, RefCell};
 
 /// one number of a result: bits of the value (f32 widened exactly, zeros without sign) and, for nested subjects,
-/// of its inner derivative part
-pub type Part = (u64, Option<u64>);
+/// of its inner derivative part(s): one for T = Dual64, two for T = DualDVec64 (two directions)
+pub type Part = (u64, Option<u64>, Option<u64>);
 pub const SHAPE: u64 = u64::MAX;
 
 #[derive(Clone, Debug, PartialEq)]
@@ -48,7 +48,8 @@ impl Ctx {
 pub struct Fx {
     pub polys: Vec<Poly>,
     pub a: Vec<f64>,
-    pub b: Vec<f64>,
+    /// per variable: the direction(s) it carries when T is itself a dual number
+    pub b: Vec<[f64; 2]>,
     pub ijk: [usize; 3],
     /// the closure multiplies its result by 2^scale (exact): puts the results into the top or bottom binade of the
     /// float type, where a careless (a + b) / 2 overflows
@@ -67,37 +68,54 @@ fn scaled<X: DualNum<F>, F: DualNumFloat>(x: X, k: i32) -> X {
 pub trait Subj<F>: DualNum<F> + Clone {
     const NESTED: bool;
     const F32: bool;
-    fn make(a: f64, b: f64) -> Self;
+    fn make(a: f64, b: [f64; 2]) -> Self;
     fn part(&self) -> Part;
 }
 impl Subj<f64> for f64 {
     const NESTED: bool = false;
     const F32: bool = false;
-    fn make(a: f64, _b: f64) -> Self {
+    fn make(a: f64, _b: [f64; 2]) -> Self {
         a
     }
     fn part(&self) -> Part {
-        (canon(*self), None)
+        (canon(*self), None, None)
     }
 }
 impl Subj<f32> for f32 {
     const NESTED: bool = false;
     const F32: bool = true;
-    fn make(a: f64, _b: f64) -> Self {
+    fn make(a: f64, _b: [f64; 2]) -> Self {
         a as f32
     }
     fn part(&self) -> Part {
-        (canon(*self as f64), None)
+        (canon(*self as f64), None, None)
     }
 }
 impl Subj<f64> for Dual64 {
     const NESTED: bool = true;
     const F32: bool = false;
-    fn make(a: f64, b: f64) -> Self {
-        Dual64::new(a, b)
+    fn make(a: f64, b: [f64; 2]) -> Self {
+        Dual64::new(a, b[0])
     }
     fn part(&self) -> Part {
-        (canon(self.re), Some(canon(self.eps)))
+        (canon(self.re), Some(canon(self.eps)), None)
+    }
+}
+/// T with a dynamically sized, possibly absent derivative part of its own: two directions per variable; a variable
+/// whose two directions are both zero is built as a constant (absent part)
+impl Subj<f64> for DualDVec64 {
+    const NESTED: bool = true;
+    const F32: bool = false;
+    fn make(a: f64, b: [f64; 2]) -> Self {
+        if b == [0.0, 0.0] {
+            DualDVec64::from_re(a)
+        } else {
+            DualDVec64::new(a, Derivative::some(nalgebra::DVector::from_vec(vec![b[0], b[1]])))
+        }
+    }
+    fn part(&self) -> Part {
+        let e = self.eps.clone().unwrap_generic(Dyn(2), Const::<1>);
+        (canon(self.re), Some(canon(e[0])), Some(canon(e[1])))
     }
 }
 
@@ -135,21 +153,21 @@ fn vec_parts<T: Subj<F>, F, D: Dim>(v: &OVector<T, D>, out: &mut Vec<Part>)
 where
     DefaultAllocator: Allocator<D>,
 {
-    out.push((SHAPE, Some(v.nrows() as u64)));
+    out.push((SHAPE, Some(v.nrows() as u64), None));
     out.extend(v.iter().map(|x| x.part()));
 }
 fn mat_parts<T: Subj<F>, F, R: Dim, C: Dim>(m: &OMatrix<T, R, C>, out: &mut Vec<Part>)
 where
     DefaultAllocator: Allocator<R, C>,
 {
-    out.push((SHAPE, Some(((m.nrows() as u64) << 32) | m.ncols() as u64)));
+    out.push((SHAPE, Some(((m.nrows() as u64) << 32) | m.ncols() as u64), None));
     for i in 0..m.nrows() {
         for j in 0..m.ncols() {
             out.push(m[(i, j)].part());
         }
     }
 }
-fn mkvec<T: Subj<F>, F, D: Dim>(a: &[f64], b: &[f64]) -> OVector<T, D>
+fn mkvec<T: Subj<F>, F, D: Dim>(a: &[f64], b: &[[f64; 2]]) -> OVector<T, D>
 where
     DefaultAllocator: Allocator<D>,
 {
@@ -289,7 +307,7 @@ where
 
 // ---- dispatch on the scenario's type configuration -----------------------------------------------------------
 
-pub const SCALARS: &[&str] = &["f64", "f32", "nested"];
+pub const SCALARS: &[&str] = &["f64", "f32", "nested", "nestedvec"];
 pub const DIMS1: &[&str] = &["S1", "S2", "S3", "S4", "S5", "S6", "S8", "S10", "S16", "Dyn", "Dyn"];
 /// (outputs x inputs) for jacobian, (x x y) for partial_hessian
 pub const DIMS2: &[&str] = &["S1xS1", "S2xS3", "S3xS2", "S1xS4", "S4xS1", "S3xS3", "DynxDyn", "S2xDyn", "DynxS3"];
@@ -304,6 +322,7 @@ macro_rules! by_scalar {
             "f64" => $f::<f64, f64>($($arg),*),
             "f32" => $f::<f32, f32>($($arg),*),
             "nested" => $f::<Dual64, f64>($($arg),*),
+            "nestedvec" => $f::<DualDVec64, f64>($($arg),*),
             other => panic!("harness error: scalar configuration {other}"),
         }
     };
@@ -332,15 +351,25 @@ macro_rules! by_scalar_dim {
             ("f32", "S16") => $f::<f32, f32, Const<16>>($($arg),*),
             ("f32", "Dyn") => $f::<f32, f32, Dyn>($($arg),*),
             ("nested", "S1") => $f::<Dual64, f64, Const<1>>($($arg),*),
+            ("nestedvec", "S1") => $f::<DualDVec64, f64, Const<1>>($($arg),*),
             ("nested", "S2") => $f::<Dual64, f64, Const<2>>($($arg),*),
+            ("nestedvec", "S2") => $f::<DualDVec64, f64, Const<2>>($($arg),*),
             ("nested", "S3") => $f::<Dual64, f64, Const<3>>($($arg),*),
+            ("nestedvec", "S3") => $f::<DualDVec64, f64, Const<3>>($($arg),*),
             ("nested", "S5") => $f::<Dual64, f64, Const<5>>($($arg),*),
+            ("nestedvec", "S5") => $f::<DualDVec64, f64, Const<5>>($($arg),*),
             ("nested", "S8") => $f::<Dual64, f64, Const<8>>($($arg),*),
+            ("nestedvec", "S8") => $f::<DualDVec64, f64, Const<8>>($($arg),*),
             ("nested", "S4") => $f::<Dual64, f64, Const<4>>($($arg),*),
+            ("nestedvec", "S4") => $f::<DualDVec64, f64, Const<4>>($($arg),*),
             ("nested", "S6") => $f::<Dual64, f64, Const<6>>($($arg),*),
+            ("nestedvec", "S6") => $f::<DualDVec64, f64, Const<6>>($($arg),*),
             ("nested", "S10") => $f::<Dual64, f64, Const<10>>($($arg),*),
+            ("nestedvec", "S10") => $f::<DualDVec64, f64, Const<10>>($($arg),*),
             ("nested", "S16") => $f::<Dual64, f64, Const<16>>($($arg),*),
+            ("nestedvec", "S16") => $f::<DualDVec64, f64, Const<16>>($($arg),*),
             ("nested", "Dyn") => $f::<Dual64, f64, Dyn>($($arg),*),
+            ("nestedvec", "Dyn") => $f::<DualDVec64, f64, Dyn>($($arg),*),
             other => panic!("harness error: configuration {other:?}"),
         }
     };
@@ -367,14 +396,23 @@ macro_rules! by_scalar_dim2 {
             ("f32", "S2xDyn") => $f::<f32, f32, Const<2>, Dyn>($($arg),*),
             ("f32", "DynxS3") => $f::<f32, f32, Dyn, Const<3>>($($arg),*),
             ("nested", "S1xS1") => $f::<Dual64, f64, Const<1>, Const<1>>($($arg),*),
+            ("nestedvec", "S1xS1") => $f::<DualDVec64, f64, Const<1>, Const<1>>($($arg),*),
             ("nested", "S2xS3") => $f::<Dual64, f64, Const<2>, Const<3>>($($arg),*),
+            ("nestedvec", "S2xS3") => $f::<DualDVec64, f64, Const<2>, Const<3>>($($arg),*),
             ("nested", "S3xS2") => $f::<Dual64, f64, Const<3>, Const<2>>($($arg),*),
+            ("nestedvec", "S3xS2") => $f::<DualDVec64, f64, Const<3>, Const<2>>($($arg),*),
             ("nested", "S1xS4") => $f::<Dual64, f64, Const<1>, Const<4>>($($arg),*),
+            ("nestedvec", "S1xS4") => $f::<DualDVec64, f64, Const<1>, Const<4>>($($arg),*),
             ("nested", "S4xS1") => $f::<Dual64, f64, Const<4>, Const<1>>($($arg),*),
+            ("nestedvec", "S4xS1") => $f::<DualDVec64, f64, Const<4>, Const<1>>($($arg),*),
             ("nested", "S3xS3") => $f::<Dual64, f64, Const<3>, Const<3>>($($arg),*),
+            ("nestedvec", "S3xS3") => $f::<DualDVec64, f64, Const<3>, Const<3>>($($arg),*),
             ("nested", "DynxDyn") => $f::<Dual64, f64, Dyn, Dyn>($($arg),*),
+            ("nestedvec", "DynxDyn") => $f::<DualDVec64, f64, Dyn, Dyn>($($arg),*),
             ("nested", "S2xDyn") => $f::<Dual64, f64, Const<2>, Dyn>($($arg),*),
+            ("nestedvec", "S2xDyn") => $f::<DualDVec64, f64, Const<2>, Dyn>($($arg),*),
             ("nested", "DynxS3") => $f::<Dual64, f64, Dyn, Const<3>>($($arg),*),
+            ("nestedvec", "DynxS3") => $f::<DualDVec64, f64, Dyn, Const<3>>($($arg),*),
             other => panic!("harness error: configuration {other:?}"),
         }
     };
